@@ -72,7 +72,18 @@ class PolarsSem:
         key = tuple(b["df"])
         for k, rel in self.scans:
             if k == key:
-                return rel.copy()
+                rel = rel.copy()
+                # physical time unit of Datetime columns, as the frame handed to the library has it
+                for col, dt in ((b.get("schema") or {}).get("fields") or {}).items():
+                    if isinstance(dt, dict) and "Datetime" in dt and col in rel.data:
+                        unit = dt["Datetime"][0]
+                        tag = {"Microseconds": DT, "Milliseconds": K.DT_MS, "Nanoseconds": K.DT_NS}.get(unit)
+                        if tag is None or dt["Datetime"][1] is not None:
+                            raise Unsupported(f"datetime column {col}: {dt}")
+                        if tag != DT:
+                            self.constructs.add(f"scan:{tag}")
+                            rel.data[col] = [Cell(tag, c.null, c.val) for c in rel.data[col]]
+                return rel
         for k, stage, names in self.collected:
             if k == key:
                 # a frame produced by collect(): bound to the symbolic result of the
@@ -511,6 +522,15 @@ class PolarsSem:
 
     def cast_cell(self, c: Cell, tgt, tgt_name, options):
         src = c.ty
+        if src in K.DT_UNITS:
+            # a datetime column in its physical ms / ns unit (payload: the instant in microseconds)
+            if tgt == DT:
+                return Cell(DT, c.null, c.val)
+            if tgt == DATE:
+                return K.dt_to_date(Cell(DT, c.null, c.val))
+            if tgt == STR:
+                return S.dt_to_str(Cell(DT, c.null, c.val), digits=3 if src == K.DT_MS else 9)
+            raise Unsupported(f"cast {src}->{tgt}")
         if src == NULLT:
             return K.null_of(tgt)
         if src == tgt:
